@@ -304,7 +304,8 @@ def _delta(rng, cfg, truncate=False):
     if rng.random() < 0.15:
         # a context-wide (scheme-less) option, given in its bare spelling or through the 'all' pseudo-scheme
         k = rng.choice(["vary_rounds", "vary_rounds", "truncate_error" if truncate else "vary_rounds", "all__vary_rounds"])
-        return {k: rng.choice([0, 1, 0.1, 0.25, "10%", 1.0, "100%"]) if "vary" in k else rng.choice([True, False])}
+        # (a value of None / "none": "no value given" -- the option is then as good as absent, and must not break the exports)
+        return {k: rng.choice([0, 1, 0.1, 0.25, "10%", 1.0, "100%"]) if "vary" in k else rng.choice([True, False, True, False, None, "none"])}
     if r < 0.07 and costed:
         s = rng.choice(costed)
         a, dflt, b = _triple(rng, s, beyond=False)
